@@ -34,7 +34,7 @@ from .loader import FuncInfo
 
 
 _PURE_FUNCS: Dict[str, Callable[..., Any]] = {
-    "int": int, "str": str, "len": len, "float": float, "bool": lambda x=False: bool(x), "abs": abs,
+    "int": int, "str": str, "len": len, "float": float, "bool": lambda x=False: bool(x), "abs": abs, "repr": repr,
     # iteration helpers: their result is materialised (the explorer iterates over sequences it knows)
     "enumerate": lambda *a: list(enumerate(*a)), "zip": lambda *a: list(zip(*a)), "range": lambda *a: list(range(*a)),
     "list": list, "tuple": tuple, "reversed": lambda a: list(reversed(a)), "min": min, "max": max, "sum": sum, "slice": slice,
@@ -324,7 +324,7 @@ class Explorer:
                         raise _PathRaises(type(err).__name__) from None
                     except (TypeError, ValueError) as err:
                         raise _PathRaises(type(err).__name__) from err
-            if isinstance(e.func, ast.Attribute) and not e.keywords and isinstance(e.func.value, (ast.Name, ast.Attribute, ast.Subscript, ast.Constant)):
+            if isinstance(e.func, ast.Attribute) and not e.keywords and isinstance(e.func.value, (ast.Name, ast.Attribute, ast.Subscript, ast.Constant, ast.Call)):
                 # a pure method of a plain value the path knows (a table looked up with a known key)
                 recv = self.value(e.func.value, env)
                 plain = all(isinstance(a, (str, int, float, bool, type(None), tuple)) and not isinstance(a, Text) for a in args)
